@@ -374,6 +374,7 @@ func defaultResultSpec(f *ssa.Function) (resultSpec, bool) {
 // failingValue: is value v (as seen when arriving in block b from pred) a
 // failure indication under spec?
 func failingValue(v ssa.Value, spec resultSpec, b *ssa.BasicBlock, pred *ssa.BasicBlock) bool {
+	v = unspill(v)
 	if phi, ok := v.(*ssa.Phi); ok && phi.Block() == b && pred != nil {
 		for i, p := range b.Preds {
 			if p == pred {
@@ -519,4 +520,31 @@ func instrDominates(a, b ssa.Instruction) bool {
 
 func isErrorType(t types.Type) bool {
 	return types.Identical(t, types.Universe.Lookup("error").Type())
+}
+
+// unspill: functions with defer store their results in a local cell before `rundefers` and return the reloaded
+// value; when the load is preceded in its own block by a store to the same cell, it denotes the stored value.
+func unspill(v ssa.Value) ssa.Value {
+	ld, ok := v.(*ssa.UnOp)
+	if !ok || ld.Op != token.MUL {
+		return v
+	}
+	al, ok := ld.X.(*ssa.Alloc)
+	if !ok {
+		return v
+	}
+	b := ld.Block()
+	var last ssa.Value
+	for _, in := range b.Instrs {
+		if in == ssa.Instruction(ld) {
+			break
+		}
+		if st, ok := in.(*ssa.Store); ok && st.Addr == ssa.Value(al) {
+			last = st.Val
+		}
+	}
+	if last != nil {
+		return last
+	}
+	return v
 }
